@@ -107,6 +107,8 @@ def run(ctx):
     q = ctx.quick()
     docs = EXTRA + [gen.md_any(ctx.rng, 8) for _ in range(2500 if q else 30000)] + [gen.md_nested(ctx.rng) for _ in range(400 if q else 4000)]
     cfgs = cfgs_for(ctx)
+    common.model_tie(ctx, docs, 'core', 'doc', limit=(1200 if ctx.quick() else 12000))
+    common.model_tie(ctx, docs[::3], 'core-hardwrap', 'doc', limit=(400 if ctx.quick() else 4000))
     n = oracle(ctx, docs, cfgs)
     n += custom_renderer_stream(ctx, docs[: (600 if q else 6000)])
     lean_grammar_agrees(ctx, docs[: (800 if q else 8000)], cfgs)
